@@ -10,10 +10,11 @@ use lsp_types::{
     UnregistrationParams,
 };
 use serde::de::DeserializeOwned;
-use tokio::{
-    select,
-    sync::{Mutex, oneshot},
-};
+#[cfg(feature = "verif_hooks")]
+use crate::verif_sync::Mutex;
+#[cfg(not(feature = "verif_hooks"))]
+use tokio::sync::Mutex;
+use tokio::{select, sync::oneshot};
 use tokio_util::sync::CancellationToken;
 
 pub struct ClientProxy {
